@@ -66,21 +66,24 @@ def bounded(tier, seed):
         import math
         for unit in ("`", "[", "{%", "<!--", "*", "_", "> ", "- "):
             ts = []
-            for k in (2 ** 6, 2 ** 8, 2 ** 10):
+            sizes = (2 ** 6, 2 ** 8, 2 ** 10) if unit != "> " else (18, 20, 22)     # nested quotes: see C12-marko-nested-quote-exponential
+            for k in sizes:
                 t0 = time.time()
                 signal.alarm(60)
                 try:
-                    P.fmt(unit * k, width=88)
+                    P.fmt(unit * k + ("x\n" if unit in ("> ", "- ") else ""), width=88)
                 except Watchdog:
-                    viol.append({"clause": "terminates", "input": {"text": "%r * %d" % (unit, k)}, "got": "> 60 s"})
+                    viol.append({"clause": "terminates", "input": {"text": "%r * %d" % (unit, k), "pumped": unit}, "got": "> 60 s"})
+                except Exception as e:
+                    viol.append({"clause": "no_raise", "input": {"text": "%r * %d" % (unit, k), "pumped": unit}, "got": repr(e)[:200]})
                 finally:
                     signal.alarm(0)
                 ts.append(max(time.time() - t0, 1e-4))
                 evals += 1
-            exp = math.log(ts[-1] / ts[0]) / math.log(2 ** 4)
+            exp = math.log(ts[-1] / ts[0]) / math.log(sizes[-1] / sizes[0])
             pumped[unit] = round(exp, 2)
-            if exp > 2.6 and ts[-1] > 2.0:
-                viol.append({"clause": "grows_gently", "input": {"text": "%r * k" % unit}, "got": {"times": ts, "exponent": exp}})
+            if exp > 2.6 and ts[-1] > (2.0 if unit != "> " else 0.1):
+                viol.append({"clause": "grows_gently", "input": {"text": "%r * k" % unit, "pumped": unit}, "got": {"times": ts, "exponent": exp}})
     return {"evaluations": evals, "distinct_nontrivial": len(distinct), "violations": viol, "pumped_exponents": pumped,
             "samples": [{"soup": "".join(rnd.choice(SOUP) for _ in range(20))}],
             "rule": "seeded Unicode soup (unbalanced delimiters, control characters, CR/LF mixes, NUL, U+2028, look-alikes of the internal placeholder tokens) of length 3-120 x "
@@ -90,8 +93,28 @@ def bounded(tier, seed):
             "exhaustive": False, "bound": "%d strings" % n}
 
 
+def _raises_recursion():
+    try:
+        P.fmt("- " * 400 + "x\n", width=88)
+        return False
+    except RecursionError:
+        return True
+
+
+def _quote_doubling():
+    import time as _t
+    ts = []
+    for k in (17, 21):
+        t0 = _t.process_time()
+        P.fmt("> " * k + "x\n", width=88)
+        ts.append(max(_t.process_time() - t0, 1e-4))
+    return ts[1] > 6 * ts[0]          # 4 more levels: 16x on this tree; linear growth would give ~1.2x
+
+
 def witnesses():
-    return {"C12-empty-output": P.fmt("-\t\r\n", width=88) == ""}
+    return {"C12-empty-output": P.fmt("-\t\r\n", width=88) == "",
+            "C12-marko-deep-nesting-recursion": _raises_recursion(),
+            "C12-marko-nested-quote-exponential": _quote_doubling()}
 
 
 # ---- ST obligations: every regex of the package is free of nested unbounded quantifiers -------------------------------
